@@ -9,7 +9,8 @@
    registers at a definition or use.  The model table [ainfer p] is compared with the real
    infer_state_of on every run (L1), and [wf_prog (ainfer p) p] is evaluated on every real
    output of accfg-trace-states (L1). *)
-From Snax Require Import Base.Prelude Model.AccIR Model.AccSem Model.AccInfer Proofs.AccSemProofs Proofs.AccInferProofs.
+From Snax Require Import Base.Prelude Model.AccIR Model.AccSem Model.AccInfer Model.AccDedup Model.AccWeave
+  Proofs.AccSemProofs Proofs.AccInferProofs Proofs.AccWeaveProofs.
 
 (* For every certified table and program, every oracle (initial registers, what opaque calls write
    and return) and all arguments — hence all trip counts, including zero, and all branch outcomes —
@@ -29,6 +30,37 @@ Theorem C07_model_inference_sound_partial :
   forall (orc : oracle) (args : list Z), chk_prog (tfun (ainfer p)) orc p args = [].
 Proof. intros p H orc args. exact (wf_sound (tfun (ainfer p)) orc p args H). Qed.
 Print Assumptions C07_model_inference_sound_partial.
+
+(* ---- the model of _weave_states_in_region (compared with the real pass by L1 on every run) ------
+   What is still assumed after something that may reconfigure the accelerators behind the
+   compiler's back (clause "nothing is assumed" of C07; defect F2 was exactly the failure of the
+   second and third statement on the real code): *)
+Theorem C07_weave_call_forgets :
+  forall st n g pu ds ar, weave_stmt st n (SCall g true pu ds ar) = Some ([SCall g true pu ds ar], [], n).
+Proof. exact weave_call_forgets. Qed.
+Print Assumptions C07_weave_call_forgets.
+
+Theorem C07_weave_loop_with_effects_forgets :
+  forall st n iv lb ub sp its rs body ys xs st' n',
+  existsb stmt_has_effects body = true ->
+  weave_stmt st n (SFor iv lb ub sp its rs body ys) = Some (xs, st', n') -> st' = [].
+Proof. exact weave_for_effects_forgets. Qed.
+Print Assumptions C07_weave_loop_with_effects_forgets.
+
+Theorem C07_weave_if_needs_both_branches :
+  forall st n c rs thn thy els ely xs st' n' thn' st_t n1 els' st_e n2,
+  weave_block st n thn = Some (thn', st_t, n1) ->
+  weave_block st n1 els = Some (els', st_e, n2) ->
+  weave_stmt st n (SIf c rs thn thy els ely) = Some (xs, st', n') ->
+  forall a, d_has a st' = true -> d_has a st_t = true /\ d_has a st_e = true.
+Proof. exact weave_if_both_branches. Qed.
+Print Assumptions C07_weave_if_needs_both_branches.
+
+Theorem C07_weave_branch_ending_in_call_forgets :
+  forall st n b g pu ds ar x st' n',
+  weave_block st n (b ++ [SCall g true pu ds ar]) = Some (x, st', n') -> st' = [].
+Proof. exact weave_block_ending_in_call_forgets. Qed.
+Print Assumptions C07_weave_branch_ending_in_call_forgets.
 
 (* the woven two-configuration loop of notes/probe_c01_two_config_loop.mlir (F1) *)
 Definition c07_two_cfg : prog :=
